@@ -53,9 +53,14 @@ def refusal(idx: Index, func: FunctionInfo, env: Dict[str, Any], enter: Tuple[st
     return (hit is not None), unknown, hit
 
 
-def decide_refusals(idx: Index, rep, rule: str, func: FunctionInfo, cases: List[Tuple[str, Dict[str, Any], bool]], what: str):
-    """cases: (label, argument values, must it be refused?)"""
+def decide_refusals(idx: Index, rep, rule: str, func: FunctionInfo, cases: List[Tuple[str, Dict[str, Any], bool]], what: str, may_skip: Tuple[str, ...] = ()):
+    """cases: (label, argument values, must it be refused?).  A raise-guard whose test cannot be folded from the case's values makes the
+    case undecidable (analysis error) unless its text contains one of `may_skip` (guards about arguments the case does not concern)."""
+    from ..index import AnalysisError
     for label, env, want in cases:
         got, unknown, hit = refusal(idx, func, env)
+        blind = [u for u in unknown if not any(m in u for m in may_skip)]
+        if blind and not got:
+            raise AnalysisError(f"{func.qualname}: guard(s) {blind[:2]} cannot be evaluated for case `{label}`")
         rep.decide(got == want, rule, func, hit if hit is not None else func.node, text=f"{func.qualname}: {label} -> {'refused' if want else 'accepted'}", what=what,
                    reason=f"{label}: {'refused by `' + norm(hit.test)[:70] + '`' if got else 'no guard fires'}, expected {'a refusal' if want else 'acceptance'}")
